@@ -194,7 +194,7 @@ func c05(c *core.Ctx) {
 		return
 	}
 	// (a) every bit of library-fingerprinted messages
-	c.Section("bitflips", c.N(200, 5000), func(_ int64, r *gen.Rand) {
+	c.Section("bitflips", c.N(200, 30000), func(_ int64, r *gen.Rand) {
 		wire := c05Make(c, r, 48)
 		if wire == nil {
 			return
@@ -211,7 +211,7 @@ func c05(c *core.Ctx) {
 		}
 	})
 	// (b) bursts of up to 32 bits, in the CRC's own (transmission, LSB-first) bit order
-	c.Section("bursts", c.N(400, 20000), func(_ int64, r *gen.Rand) {
+	c.Section("bursts", c.N(400, 200000), func(_ int64, r *gen.Rand) {
 		wire := c05Make(c, r, 200)
 		if wire == nil {
 			return
@@ -233,7 +233,7 @@ func c05(c *core.Ctx) {
 		}
 	})
 	// (c) arbitrary decodable messages with FINGERPRINT attributes of any length and position
-	c.Section("arbitrary", c.N(10000, 500000), func(_ int64, r *gen.Rand) {
+	c.Section("arbitrary", c.N(10000, 3000000), func(_ int64, r *gen.Rand) {
 		spec := r.Spec(6, 40)
 		nfp := 1 + r.Intn(2)
 		for k := 0; k < nfp; k++ {
@@ -276,7 +276,7 @@ func c05(c *core.Ctx) {
 		c05Judge(c, wire, "arbitrary", false)
 	})
 	// (c2) near misses of the value: bare CRC without the XOR, XOR with neighbouring constants, byte-swapped
-	c.Section("value-near-misses", c.N(300, 10000), func(_ int64, r *gen.Rand) {
+	c.Section("value-near-misses", c.N(300, 100000), func(_ int64, r *gen.Rand) {
 		wire := c05Make(c, r, 60)
 		if wire == nil {
 			return
